@@ -831,4 +831,183 @@ theorem feed_addrs (tr : List (Nat × Wire × Bool)) (b : Builder) (x : String) 
     · exact Or.inr ⟨e', by simp [he'], h⟩
 
 
+section specmem
+variable {K V : Type} [DecidableEq K]
+
+theorem find_mem (s : Spec K V) (k : K) (v : V) (h : Spec.find s k = some v) : (k, v) ∈ s := by
+  induction s with
+  | nil => simp [Spec.find] at h
+  | cons p r ih =>
+    obtain ⟨k0, v0⟩ := p
+    by_cases h0 : k0 = k
+    · simp only [Spec.find, h0, if_true, Option.some.injEq] at h
+      subst h0; subst h; simp
+    · simp only [Spec.find, h0, if_false] at h
+      exact List.mem_cons_of_mem _ (ih h)
+
+theorem mem_erase (s : Spec K V) (k : K) (kv : K × V) (h : kv ∈ Spec.erase s k) : kv ∈ s :=
+  (List.mem_filter.mp h).1
+
+theorem mem_get (s : Spec K V) (k : K) (kv : K × V) (h : kv ∈ (Spec.get s k).1) : kv ∈ s := by
+  unfold Spec.get at h
+  cases hf : Spec.find s k with
+  | none => simpa [hf] using h
+  | some v =>
+    simp only [hf, Spec.touch, List.mem_append, List.mem_singleton] at h
+    rcases h with h | h
+    · exact mem_erase s k kv h
+    · subst h; exact find_mem s k v hf
+
+theorem mem_set (cap : Nat) (s : Spec K V) (k : K) (v : V) (kv : K × V) (h : kv ∈ Spec.set cap s k v) :
+    kv ∈ s ∨ kv = (k, v) := by
+  unfold Spec.set at h
+  cases hf : Spec.find s k with
+  | none =>
+    simp only [hf, Spec.add, List.mem_append, List.mem_singleton] at h
+    rcases h with h | h
+    · split at h
+      · exact Or.inl (List.mem_of_mem_tail h)
+      · exact Or.inl h
+    · exact Or.inr h
+  | some v0 =>
+    simp only [hf, Spec.touch, List.mem_append, List.mem_singleton] at h
+    rcases h with h | h
+    · exact Or.inl (mem_erase s k kv h)
+    · exact Or.inr h
+
+end specmem
+
+/-- the outcome hands `r` to the caller -/
+def Carries (o : Outcome) (r : Result) : Prop := o = .hit r ∨ o = .fresh r ∨ o = .stale r
+
+/-- `r` is the completed result of an upstream round trip that some goroutine made *for this name*:
+it probed `name` at `t0`, its round trip ended with script `up`, and `r` is what `sendQueries`
+built from that script -/
+def Justified (cfg : Config) (all : List Act) (name : String) (r : Result) : Prop :=
+  ∃ tid t0 up, Act.probe tid name t0 ∈ all ∧ Act.finish tid up ∈ all ∧
+    (sendQueries cfg t0 up).b.isDone = true ∧ r = (sendQueries cfg t0 up).b.result
+
+theorem Justified.mono {cfg : Config} {all all' : List Act} {name : String} {r : Result}
+    (h : Justified cfg all name r) (hs : ∀ a ∈ all, a ∈ all') : Justified cfg all' name r := by
+  obtain ⟨tid, t0, up, h1, h2, h3, h4⟩ := h
+  exact ⟨tid, t0, up, hs _ h1, hs _ h2, h3, h4⟩
+
+/-- invariant of the interleaved system: every cache binding and every value a pending lookup carries
+was produced by a lookup of that very name -/
+def CInv (cfg : Config) (seen : List Act) (s : CState) : Prop :=
+  (∀ kv ∈ s.cache, Justified cfg seen kv.1 kv.2) ∧
+  (∀ tp ∈ s.pending, Act.probe tp.1 tp.2.name tp.2.start ∈ seen ∧
+      ∀ r, tp.2.cached = some r → Justified cfg seen tp.2.name r)
+
+theorem findPending_some (ps : List (Nat × Pending)) (tid : Nat) (tp : Nat × Pending)
+    (h : findPending ps tid = some tp) : tp ∈ ps ∧ tp.1 = tid := by
+  unfold findPending at h
+  exact ⟨List.mem_of_find?_eq_some h, by simpa using List.find?_some h⟩
+
+theorem cstep_inv (cfg : Config) (seen : List Act) (s : CState) (a : Act) (hi : CInv cfg seen s) :
+    CInv cfg (seen ++ [a]) (cstep cfg s a).1 ∧
+    ∀ e, (cstep cfg s a).2 = some e → ∀ r, Carries e.out r → Justified cfg (seen ++ [a]) e.name r := by
+  have hsub : ∀ x ∈ seen, x ∈ seen ++ [a] := fun x hx => List.mem_append_left _ hx
+  have hlift : CInv cfg (seen ++ [a]) s :=
+    ⟨fun kv h => (hi.1 kv h).mono hsub, fun tp h => ⟨hsub _ (hi.2 tp h).1, fun r hr => ((hi.2 tp h).2 r hr).mono hsub⟩⟩
+  cases a with
+  | probe tid name now =>
+    cases hp : findPending s.pending tid with
+    | some tp =>
+      simp only [cstep, hp]
+      exact ⟨hlift, by intro e he; cases he⟩
+    | none =>
+      rcases hget : Spec.get s.cache name with ⟨cache, cached⟩
+      have e1 : cache = (Spec.get s.cache name).1 := by rw [hget]
+      have e2 : cached = (Spec.get s.cache name).2 := by rw [hget]
+      have hcache : ∀ kv ∈ cache, Justified cfg (seen ++ [.probe tid name now]) kv.1 kv.2 :=
+        fun kv h => hlift.1 kv (mem_get _ name _ (by rw [← e1]; exact h))
+      have hcached : ∀ r, cached = some r → Justified cfg (seen ++ [.probe tid name now]) name r := by
+        intro r hr
+        rw [e2, get_snd] at hr
+        exact hlift.1 (name, r) (find_mem _ _ _ hr)
+      have hpend : CInv cfg (seen ++ [.probe tid name now])
+          { cache := cache, pending := (tid, { name := name, cached := cached, start := now }) :: s.pending } := by
+        refine ⟨hcache, ?_⟩
+        intro tp htp
+        rcases List.mem_cons.mp htp with h | h
+        · subst h; exact ⟨by simp, hcached⟩
+        · exact hlift.2 tp h
+      cases cached with
+      | none =>
+        simp only [cstep, hp, hget]
+        exact ⟨hpend, by intro e he; cases he⟩
+      | some r0 =>
+        simp only [cstep, hp, hget]
+        split
+        · refine ⟨⟨hcache, hlift.2⟩, ?_⟩
+          intro e he r hr
+          simp only [Option.some.injEq] at he; subst he
+          rcases hr with h | h | h <;> cases h
+          exact hcached _ rfl
+        · exact ⟨hpend, by intro e he; cases he⟩
+  | finish tid up =>
+    cases hp : findPending s.pending tid with
+    | none =>
+      simp only [cstep, hp]
+      exact ⟨hlift, by intro e he; cases he⟩
+    | some tp =>
+      obtain ⟨hmem, htid⟩ := findPending_some _ _ _ hp
+      have hpd := hi.2 tp hmem
+      have hfilter : ∀ x ∈ s.pending.filter (fun x => !(x.1 == tid)),
+          Act.probe x.1 x.2.name x.2.start ∈ seen ++ [.finish tid up] ∧
+            ∀ r, x.2.cached = some r → Justified cfg (seen ++ [.finish tid up]) x.2.name r :=
+        fun x hx => hlift.2 x (List.mem_filter.mp hx).1
+      simp only [cstep, hp]
+      split
+      · refine ⟨⟨hlift.1, hfilter⟩, ?_⟩
+        intro e he r hr
+        simp only [Option.some.injEq] at he; subst he
+        dsimp only at hr
+        cases hc : tp.2.cached with
+        | none => simp only [hc] at hr; rcases hr with h | h | h <;> cases h
+        | some r0 =>
+          simp only [hc] at hr
+          rcases hr with h | h | h <;> cases h
+          exact (hpd.2 r hc).mono hsub
+      · rename_i hdone
+        have hj : Justified cfg (seen ++ [.finish tid up]) tp.2.name (sendQueries cfg tp.2.start up).b.result :=
+          ⟨tp.1, tp.2.start, up, hsub _ hpd.1, by rw [htid]; simp, by simpa using hdone, rfl⟩
+        refine ⟨⟨?_, hfilter⟩, ?_⟩
+        · intro kv hkv
+          rcases mem_set _ _ _ _ _ hkv with h | h
+          · exact hlift.1 kv h
+          · subst h; exact hj
+        · intro e he r hr
+          simp only [Option.some.injEq] at he; subst he
+          rcases hr with h | h | h <;> cases h
+          exact hj
+
+theorem crun_inv (cfg : Config) (acts : List Act) (seen : List Act) (s : CState) (hi : CInv cfg seen s) :
+    CInv cfg (seen ++ acts) (crun cfg s acts).1 ∧
+    ∀ e ∈ (crun cfg s acts).2, ∀ r, Carries e.out r → Justified cfg (seen ++ acts) e.name r := by
+  induction acts generalizing seen s with
+  | nil => simpa [crun] using hi
+  | cons a rest ih =>
+    obtain ⟨h1, h2⟩ := cstep_inv cfg seen s a hi
+    obtain ⟨g1, g2⟩ := ih (seen ++ [a]) (cstep cfg s a).1 h1
+    have he : seen ++ [a] ++ rest = seen ++ a :: rest := by simp
+    rw [he] at g1 g2
+    unfold crun
+    dsimp only
+    refine ⟨g1, ?_⟩
+    intro e hmem r hr
+    cases hev : (cstep cfg s a).2 with
+    | none => simp only [hev] at hmem; exact g2 e hmem r hr
+    | some e0 =>
+      simp only [hev] at hmem
+      rcases List.mem_cons.mp hmem with h | h
+      · subst h
+        exact (h2 e hev r hr).mono (fun x hx => by
+          rcases List.mem_append.mp hx with h | h
+          · exact List.mem_append_left _ h
+          · simp only [List.mem_singleton] at h; subst h; simp)
+      · exact g2 e h r hr
+
+
 end SSV.Dns
